@@ -196,3 +196,23 @@ def variant_name(db, v):
             if var['index'] == v.variant:
                 return var['name']
     return '?'
+
+
+def map_jobs(fn_name, modname, jobs, nproc=None, chunk=None):
+    """generic parallel map: calls modname.fn_name(chunk of jobs) in worker processes, returns the list of results"""
+    import importlib
+    jobs = list(jobs)
+    nproc = nproc or min(16, os.cpu_count() or 4)
+    chunk = chunk or max(1, min(64, len(jobs) // (nproc * 4) or 1))
+    chunks = [(fn_name, modname, jobs[i:i + chunk]) for i in range(0, len(jobs), chunk)]
+    if len(jobs) < 8 or nproc == 1:
+        return [_map_worker(c) for c in chunks]
+    ctx = mp.get_context('fork')
+    with ctx.Pool(nproc) as pool:
+        return pool.map(_map_worker, chunks)
+
+
+def _map_worker(c):
+    import importlib
+    fn_name, modname, jobs = c
+    return getattr(importlib.import_module(modname), fn_name)(jobs)
